@@ -3253,6 +3253,8 @@ end_daemon(ESL_SQFILE *sqfp, ESL_SQ *sq)
   ESL_SQASCII_DATA *ascii = &sqfp->data.ascii;
 
   if (ascii->nc < 3) ESL_FAIL(eslEFORMAT, ascii->errbuf, "Whoops, daemon input stream is corrupted");
+  /* both characters of the "//" terminator must be in the current buffer: do not read past its end */
+  if (ascii->bpos + 2 > ascii->nc) ESL_FAIL(eslEFORMAT, ascii->errbuf, "Line %" PRId64 ": did not find // terminator at end of seq record", ascii->linenumber);
 
   c =  ascii->buf[ascii->bpos++];
   if (c != '/') ESL_FAIL(eslEFORMAT, ascii->errbuf, "Line %" PRId64 ": did not find // terminator at end of seq record", ascii->linenumber);
